@@ -54,14 +54,20 @@ def parse_state(txt):
     return out
 
 
-def names_of(t):
-    """Container names a type mentions by value, in the order the pass visits them."""
+def names_of(t, by_value=True):
+    """Containers that a type depends on, in the order the pass visits them: structures and words it holds by value (not
+    behind a pointer or view), and the constants that name an array length anywhere in it (the length is part of the type
+    and must be known to analyze it, pointer or not)."""
     v = t[0]
     if v in ARRAYS:
-        out = names_of(t[1])
+        out = names_of(t[1], by_value)
         if v == 'ArrayWithNamedLength':
             out = out + [t[2]]
         return out
+    if v in ('Pointer', 'View'):
+        return names_of(t[1], False)
+    if not by_value:
+        return []
     if v in ('Struct', 'Word'):
         return [t[1]]
     if v == 'UnresolvedStructOrWord':
@@ -109,6 +115,30 @@ def spec_step(cs, cid, member, t):
         else:
             post.append(c['mask'])
     return 'ok', post
+
+
+def spec_use(line):
+    """Expected native answer for a `use` request (documented behaviour from an INV state)."""
+    w = line.split(' ')
+    name, ctx = int(w[1]), (None if w[2] == '-' else int(w[2]))
+    layers = [[] if l == '-' else [tuple(int(x) for x in e.split(':')) for e in l.split(',')] for l in w[3].split('/')]
+    cs = parse_state(' '.join(w[4:]))
+    hit = [i for n, i in layers[0] if n == name]
+    if not hit:
+        later = [i for l in layers[1:] for n, i in l if n == name]
+        return 'err%d' % _CODES_BY_NAME('NotACompileTimeConstant' if later else 'UndefinedVariable'), wire_state(cs)
+    rid = hit[0]
+    if ctx is None:
+        return 'ok%d' % rid, wire_state(cs)
+    v, post = spec_step(cs, ctx, False, ('Struct', rid))
+    if v != 'ok':
+        return 'err%d' % _CODES_BY_NAME(v), None         # the containment sets after a rejected step are not specified
+    out = [dict(c, mask=m_) for c, m_ in zip(cs, post)]
+    return 'ok%d' % rid, wire_state(out)
+
+
+def _CODES_BY_NAME(variant):
+    return error_code(None, variant)
 
 
 def spec_depths(cs):
@@ -164,10 +194,12 @@ class Sym:
         ex.assume(z3.ULE(ln, bv(self.K, 64)))
         return Model('vec', items=Agg(items + [None], 'vecitems'), len=ln, cap=bv(self.K, 64))
 
-    def analyzer(self, containers):
+    def analyzer(self, containers, **over):
         fs = []
         for f, t in self.adef.fields:
-            if f == 'containers':
+            if f in over:
+                fs.append(over[f])
+            elif f == 'containers':
                 fs.append(containers)
             elif f == 'resolution_id':
                 fs.append(bv(1, 32))
@@ -192,18 +224,23 @@ class Sym:
     def bit(self, idv):
         return bv(1, W) << z3.Extract(W - 1, 0, idv)
 
-    def inv(self, vec):
+    def inv(self, vec, only=None):
+        """The representation invariant; with `only`, just the clauses that constrain container slot `only`."""
         items = [x for x in vec.f['items'].fields if x is not None]
         n = vec.f['len']
         act = [z3.ULT(bv(i, 64), n) for i in range(len(items))]
         cons = []
         allm = bv(0, W)
         for i, c in enumerate(items):
-            cons.append(z3.Implies(act[i], z3.ULT(self.cid(c), bv(W, 32))))
+            if only is None or only == i:
+                cons.append(z3.Implies(act[i], z3.ULT(self.cid(c), bv(W, 32))))
             allm = allm | zite(act[i], self.bit(self.cid(c)), bv(0, W))
             for j in range(i):
-                cons.append(z3.Implies(zand(act[i], act[j]), self.cid(c) != self.cid(items[j])))
+                if only is None or only == i:
+                    cons.append(z3.Implies(zand(act[i], act[j]), self.cid(c) != self.cid(items[j])))
         for i, c in enumerate(items):
+            if only is not None and only != i:
+                continue
             cons.append(z3.Implies(act[i], (self.mask(c) & ~allm) == bv(0, W)))
             cons.append(z3.Implies(act[i], (self.mask(c) & self.bit(self.cid(c))) == bv(0, W)))
             for j, d in enumerate(items):
@@ -232,8 +269,9 @@ class Sym:
         return out
 
 
-def sym_names(sy, t):
-    """[(condition, id term)] in visiting order, for the symbolic type t (payload slots are shared between variants)."""
+def sym_names(sy, t, by_value=True):
+    """[(condition, id term)] in visiting order, for the symbolic type t (payload slots are shared between variants):
+    structures/words held by value, and array-length constants anywhere (also behind pointers and views)."""
     if t is None or not isinstance(t, EnumV):
         return []
     ed = t.edef
@@ -242,7 +280,7 @@ def sym_names(sy, t):
         return zor(*[t.discr == bv(ed.variant_by_name(n)[1], 64) for n in names if n in t.variants])
     out = []
     child = None
-    for v in ARRAYS:
+    for v in ARRAYS + ['Pointer', 'View']:
         if v in t.variants:
             b = t.variants[v][0]
             child = b.content if isinstance(b, (BoxV, BoxPtr)) else None
@@ -250,10 +288,15 @@ def sym_names(sy, t):
     present = [v for v in ARRAYS if v in t.variants]
     if child is not None and present:
         arr = is_(*present)
-        out += [(zand(arr, c), i) for c, i in sym_names(sy, child)]
+        out += [(zand(arr, c), i) for c, i in sym_names(sy, child, by_value)]
     ridx = sy.idf.index('resolution_id')
     if 'ArrayWithNamedLength' in t.variants:
         out.append((is_('ArrayWithNamedLength'), t.variants['ArrayWithNamedLength'][1].fields[ridx]))
+    indirect = [v for v in ('Pointer', 'View') if v in t.variants]
+    if child is not None and indirect:
+        out += [(zand(is_(*indirect), c), i) for c, i in sym_names(sy, child, False)]
+    if not by_value:
+        return out
     for v in ('Struct', 'Word'):
         if v in t.variants:
             out.append((is_(v), t.variants[v][0].fields[ridx]))
@@ -325,6 +368,18 @@ def bind_type(sy, t, conc, cons):
 def bind_state(sy, vec, cs, cons):
     cons.append(vec.f['len'] == bv(len(cs), 64))
     for c, k in zip(vec.f['items'].fields, cs):
+        d = sy.depth(c)
+        if z3.is_expr(d.discr) and not z3.is_bv_value(d.discr):
+            # depth: n (None), p (poisoned) or a number
+            if k['depth'] == 'n':
+                cons.append(d.discr == bv(0, 64))
+            else:
+                r = d.variants['Some'][0]
+                cons.append(d.discr == bv(1, 64))
+                if k['depth'] == 'p':
+                    cons.append(r.discr == bv(1, 64))
+                else:
+                    cons += [r.discr == bv(0, 64), r.variants['Ok'][0] == bv(int(k['depth']), 32)]
         cons.append(sy.cid(c) == bv(k['id'], 32))
         cons.append(sy.mask(c) == bv(k['mask'], W))
         cons.append(sy.is_struct(c) == z3.BoolVal(k['s']))
@@ -372,8 +427,10 @@ def random_type(rng, ids, depth):
     return (v, inner)
 
 
-def run(S, tier):
-    K, depth = (3, 2) if tier == 'quick' else (4, 3)
+def run(S, tier, bounds=None, sfx=''):
+    K, depth = bounds or (4, 2)
+    if os.environ.get('CONTAINER_BOUNDS'):
+        K, depth = (int(x) for x in os.environ['CONTAINER_BOUNDS'].split(','))
     t_start = time.time()
     ex = Executor(S.dump, S.defs, loop_bound=K + 3)
     ex.abstract_types = {'HashSet': W, 'String': 8, 'Location': 8}
@@ -458,7 +515,7 @@ def run(S, tier):
         """Queue a query: `formula` (the negated claim) must be unsatisfiable under the solver's assumptions.  `lemmas` are
         names of earlier queries whose proven claims may be used as assumptions; if one of them was not proven the query is
         dropped (its premise is already reported)."""
-        todo.append((qname, formula, text, kind, tuple(lemmas), solver))
+        todo.append((qname + sfx, formula, text, kind, tuple(l + sfx for l in lemmas), solver))
 
     def flush():
         batch = list(todo)
@@ -475,7 +532,7 @@ def run(S, tier):
                 # reachability witness: the premises of the section must be satisfiable together with an interesting outcome
                 S.queries.append({'name': qname, 'result': r, 'seconds': round(dt, 3), 'statement': text, 'expected': 'sat'})
                 if r != 'sat':
-                    raise Inconclusive('vacuity witness %s is unsatisfiable: the premises exclude what the clauses are about' % qname)
+                    unconfirmed.append('vacuity witness %s is unsatisfiable: the premises exclude what the clauses are about' % qname)
                 continue
             q = {'name': qname, 'result': r, 'seconds': round(dt, 3), 'statement': text}
             if lemmas:
@@ -521,6 +578,16 @@ def run(S, tier):
                 unconfirmed.append('counterexample of %s does not reproduce natively: %s -> %s' % (qname, line, got))
                 return
             pending.append((qname, text, line, got, ct))
+        elif kind == 'use':
+            line = use_line(m)
+            got = native(S, [line])[0]
+            q['counterexample'] = {'request': line, 'native': got}
+            want_v, want_post = spec_use(line)
+            good = got != 'PANIC' and got.split(' | ')[0] == want_v and (want_post is None or got.split(' | ')[1] == want_post)
+            if good or not inv_ok(parse_state(' '.join(line.split(' ')[4:]))):
+                unconfirmed.append('counterexample of %s does not reproduce natively: %s -> %s' % (qname, line, got))
+                return
+            pending.append((qname, text, line, got, ('Void',)))
         else:
             cs = sy2.model_state(m, dvec)
             line = 'depths ' + wire_state(cs)
@@ -532,15 +599,25 @@ def run(S, tier):
                 return
             pending.append((qname, text, line, got, ('Void',)))
 
+    def use_line(m):
+        ev = lambda t_: m.eval(t_, model_completion=True).as_long()
+        l0 = ','.join('%d:%d' % (ev(lay0[i].fields[nidx]), ev(lay0[i].fields[ridx])) for i in range(ev(n0))) or '-'
+        layers = [l0]
+        if ev(nl) == 2:
+            layers.append(','.join('%d:%d' % (ev(lay1[i].fields[nidx]), ev(lay1[i].fields[ridx])) for i in range(ev(n1))) or '-')
+        cx = str(ev(cxid)) if z3.is_true(m.eval(has_ctx, model_completion=True)) else '-'
+        return 'use %d %s %s %s' % (ev(uname), cx, '/'.join(layers), wire_state(sy3.model_state(m, uvec)))
+
     base = zand(pre, in_model)
     ask('containers:step-total', zand(base, zor(znot(g), *panics)),
         'a containment step from a consistent state returns without panic', 'step')
     ask('containers:cycle-iff', zand(base, g, is_ok == cyc),
-        'a containment step is rejected iff the type names, by value, the container itself or something that already contains it', 'step')
-    ask('containers:error-kind', zand(base, g, cyc, znot(zite(with_member,
-                                                                zite(const_inside, err_is('CyclicalStructureWithConstant'), err_is('CyclicalStructure')),
-                                                                err_is('CyclicalConstant')))),
-        'a cycle is reported as E415/E416 for a structure member (E416 iff a constant is part of it) and as E413 for a constant', 'step')
+        'a containment step is rejected iff the type depends (structures and words by value, array-length constants anywhere) on the container itself or on something that already contains it', 'step')
+    kind_text = ('a cycle is reported as E413 for a constant and as E415/E416 for a structure member (E416 iff a constant is among '
+                 'everything the structure then contains, on the cycle or not)')
+    ask('containers:error-kind[constant]', zand(base, g, cyc, znot(with_member), znot(err_is('CyclicalConstant'))), kind_text, 'step')
+    ask('containers:error-kind[member,E416]', zand(base, g, cyc, with_member, const_inside, znot(err_is('CyclicalStructureWithConstant'))), kind_text, 'step')
+    ask('containers:error-kind[member,E415]', zand(base, g, cyc, with_member, znot(const_inside), znot(err_is('CyclicalStructure'))), kind_text, 'step')
     # post-state of an accepted step
     pitems = [x for x in post_vec.f['items'].fields if x is not None]
     same_shape = [post_vec.f['len'] == vec.f['len']]
@@ -562,25 +639,26 @@ def run(S, tier):
         fs[sy.cf.index('contained_ids')] = zite(grows, sy.mask(c0) | acc_all, sy.mask(c0))
         spec_items.append(Agg(fs, c0.tag))
     spec_vec = Model('vec', items=Agg(spec_items + [None], 'vecitems'), len=vec.f['len'], cap=vec.f['cap'])
-    inv_post, _, _ = sy.inv(spec_vec)
-    ask('containers:invariant-preserved', zand(base, znot(cyc), znot(inv_post)),
-        'the post-state of an accepted step (as the closure-exact clauses give it) keeps containment transitively closed, '
-        'irreflexive and within the declared containers', 'step',
-        lemmas=['containers:cycle-iff', 'containers:closure-shape'] + ['containers:closure-exact[%d]' % i for i in range(len(exact))])
+    for i in range(len(spec_items)):
+        inv_i = sy.inv(spec_vec, only=i)[0]
+        ask('containers:invariant-preserved[%d]' % i, zand(base, znot(cyc), znot(inv_i)),
+            'the post-state of an accepted step (as the closure-exact clauses give it) keeps containment transitively closed, '
+            'irreflexive and within the declared containers (clauses about container slot %d)' % i, 'step',
+            lemmas=['containers:cycle-iff', 'containers:closure-shape'] + ['containers:closure-exact[%d]' % j for j in range(len(exact))])
     rt = res.variants['Ok'][0] if 'Ok' in res.variants else None
     if rt is not None:
         from mirmodels import structural_eq
         ask('containers:type-unchanged', zand(base, g, is_ok, znot(structural_eq(ex, st, rt, t))),
             'an accepted step returns the type it was given', 'step')
     full = vec.f['len'] == bv(K, 64)
-    ask('containers:witness-accepted', zand(base, g, is_ok, full, zor(*[c for c, _ in names]), *[sy.mask(c) != bv(0, W) for c in items[:1]]),
+    ask('containers:witness-accepted', zand(base, g, znot(cyc), full, zor(*[c for c, _ in names]), *[sy.mask(c) != bv(0, W) for c in items[:1]]),
         'witness: an accepted step that names a container, from a full state with a non-empty containment set', 'witness')
-    ask('containers:witness-cycle', zand(base, g, cyc, full, znot(is_ok)), 'witness: a rejected step', 'witness')
+    ask('containers:witness-cycle', zand(base, g, cyc, full), 'witness: a step that closes a cycle', 'witness')
     awnl = [(c, i) for c, i in names if i is t.variants.get('ArrayWithNamedLength', (None, None))[1].fields[sy.idf.index('resolution_id')]] \
         if 'ArrayWithNamedLength' in t.variants else []
     inner = [(c, i) for c, i in names if not any(i is j for _, j in awnl)]
     if awnl and inner:
-        ask('containers:witness-two-names', zand(base, g, is_ok, awnl[0][0], zor(*[zand(c, i != awnl[0][1]) for c, i in inner])),
+        ask('containers:witness-two-names', zand(base, g, znot(cyc), awnl[0][0], zor(*[zand(c, i != awnl[0][1]) for c, i in inner])),
             'witness: an accepted step whose type names two different containers (element type and named length)', 'witness')
     ask('containers:model-bounds', zand(pre, znot(in_model)), 'the bit-set and Vec models suffice for every state within the bound', 'bounds')
     flush()
@@ -636,11 +714,104 @@ def run(S, tier):
         'a container is strictly deeper than everything it contains (so sorting by depth declares containees first)', 'depths')
     ask('depths:tight', zand(base2, g2, zand(*all_ok), znot(zand(*tight))),
         'depth 0 iff nothing is contained, otherwise one more than the deepest containee', 'depths')
-    deepest = zor(*[zand(act2[i], depth_ok(c)[0], depth_ok(c)[1] == bv(K - 1, 32)) for i, c in enumerate(ditems)])
-    ask('depths:witness-chain', zand(base2, g2, deepest), 'witness: a chain of %d containers, the outermost at depth %d' % (K, K - 1), 'witness')
+    all_ids = bv(0, W)
+    for i, c in enumerate(items2):
+        all_ids = all_ids | zite(act2[i], sy2.bit(sy2.cid(c)), bv(0, W))
+    # a full state in which one container contains all others and another contains all but that one (premises only)
+    deepest = zand(dvec.f['len'] == bv(K, 64),
+                   zor(*[(sy2.mask(c) | sy2.bit(sy2.cid(c))) == all_ids for c in items2]),
+                   zor(*[zand(sy2.mask(c) != bv(0, W), (sy2.mask(c) | sy2.bit(sy2.cid(c))) != all_ids) for c in items2]))
+    ask('depths:witness-chain', zand(base2, g2, deepest), 'witness: a full state of %d containers with nested containment' % K, 'witness')
     ask('depths:model-bounds', zand(inv2, znot(in_model2)), 'the bit-set, Vec and loop models suffice for every state within the bound', 'bounds')
     flush()
     S.functions += ['Analyzer::determine_container_depths']
+
+    # ---------------------------------------------------------------- a constant used inside a constant expression
+    KU = 3
+    ex3 = Executor(S.dump, S.defs, loop_bound=KU + 3)
+    ex3.abstract_types = dict(ex.abstract_types)
+    ex3.vec_input_slots = 0
+    sy3 = Sym(S, ex3, KU)
+    uvec = sy3.fresh_containers('cu', depth_none=False)
+    hits = [n for n in S.dump.function_names() if re.search(r'variable_references\.rs:\d+:\d+: \d+:\d+>::use_constant$', n)]
+    if len(hits) != 1:
+        raise Inconclusive('Analyzer::use_constant not found in the MIR dump')
+    nidx, ridx = sy3.idf.index('name'), sy3.idf.index('resolution_id')
+    lay0 = [ex3.fresh_value('alpha::common::Identifier', 'l0_%d' % i, depth=1) for i in range(2)]
+    lay1 = [ex3.fresh_value('alpha::common::Identifier', 'l1_%d' % i, depth=1) for i in range(1)]
+    n0, n1, nl = z3.BitVec('ul0.len', 64), z3.BitVec('ul1.len', 64), z3.BitVec('ulayers', 64)
+    ex3.assume(zand(z3.ULE(n0, bv(2, 64)), z3.ULE(n1, bv(1, 64)), z3.UGE(nl, bv(1, 64)), z3.ULE(nl, bv(2, 64))))
+    v0 = Model('vec', items=Agg(lay0 + [None], 'vecitems'), len=n0, cap=bv(2, 64))
+    v1 = Model('vec', items=Agg(lay1 + [None], 'vecitems'), len=n1, cap=bv(1, 64))
+    vstack = Model('vec', items=Agg([v0, v1, None], 'vecitems'), len=nl, cap=bv(2, 64))
+    ctx_id = ex3.fresh_value('alpha::common::Identifier', 'uctx', depth=1)
+    has_ctx = z3.Bool('has_ctx')
+    ctx = EnumV(S.defs.find_enum('Option'), zite(has_ctx, bv(1, 64), bv(0, 64)), {'None': (), 'Some': (ctx_id,)})
+    used = ex3.fresh_value('alpha::common::Identifier', 'used', depth=1)
+    st3 = State()
+    st3.mem[(0, 'analyzer')] = sy3.analyzer(uvec, variable_stack=vstack, in_constexpr_of_constant=ctx)
+    try:
+        g3, res3 = ex3.call_function(S.dump.get(hits[0]), [PlaceRef((0, 'analyzer')), used], z3.BoolVal(True), st3)
+    except (Unsupported, PathAbort) as e:
+        raise Inconclusive('cannot encode Analyzer::use_constant: %s' % e)
+    upost = st3.mem[(0, 'analyzer')].fields[sy3.af.index('containers')]
+    inv3, act3, items3 = sy3.inv(uvec)
+    uname = used.fields[nidx]
+    a0 = [z3.ULT(bv(i, 64), n0) for i in range(2)]
+    a1 = [zand(nl == bv(2, 64), z3.ULT(bv(i, 64), n1)) for i in range(1)]
+    hit0 = [zand(a0[i], lay0[i].fields[nidx] == uname) for i in range(2)]
+    found0 = zor(*hit0)
+    rid = lay0[1].fields[ridx]
+    rid = zite(hit0[0], lay0[0].fields[ridx], rid)
+    found_later = zor(*[zand(a1[i], lay1[i].fields[nidx] == uname) for i in range(1)])
+
+    def declared3(idv):
+        return zor(*[zand(act3[i], sy3.cid(c) == idv) for i, c in enumerate(items3)])
+
+    def mask3(idv):
+        acc = bv(0, W)
+        for i, c in enumerate(items3):
+            acc = zite(zand(act3[i], sy3.cid(c) == idv), sy3.mask(c), acc)
+        return acc
+    cxid = ctx_id.fields[ridx]
+    pre3 = zand(inv3, z3.Implies(has_ctx, declared3(cxid)), *[z3.Implies(a0[i], declared3(lay0[i].fields[ridx])) for i in range(2)])
+    panics3 = [og for k_, og, _ in ex3.obligations if k_ not in ('bound', 'unwind')]
+    in_model3 = znot(zor(*[og for k_, og, _ in ex3.obligations if k_ in ('bound', 'unwind')]))
+    base3 = zand(pre3, in_model3)
+    solver = z3.SolverFor('QF_BV')
+    solver.add(*ex3.assumptions)
+    ok3 = res3.discr == bv(0, 64)
+    poison3 = res3.variants['Err'][0] if 'Err' in res3.variants else None
+    is_error3 = zand(znot(ok3), poison3.discr == bv(pdef.variant_by_name('Error')[1], 64)) if poison3 is not None else z3.BoolVal(False)
+    err3 = poison3.variants['Error'][0] if poison3 is not None and 'Error' in poison3.variants else None
+
+    def err3_is(name):
+        if err3 is None:
+            return z3.BoolVal(False)
+        return zand(is_error3, err3.discr == bv(edef.variant_by_name(name)[1], 64))
+    reach3 = mask3(rid) | sy3.bit(rid)
+    cyc3 = zand(found0, has_ctx, (reach3 & sy3.bit(cxid)) != bv(0, W))
+    out_id = res3.variants['Ok'][0].fields[ridx] if 'Ok' in res3.variants else bv(0, 32)
+    expected_verdict = zite(found0, zite(cyc3, err3_is('CyclicalConstant'), zand(ok3, out_id == rid)),
+                            zite(found_later, err3_is('NotACompileTimeConstant'), err3_is('UndefinedVariable')))
+    use_text = ('a name used in a constant expression resolves to the constant of that name (E402 for an unknown name, E433 for a variable that is not a compile-time constant); '
+                'inside the expression of constant c it is rejected as E413 iff it is c or contains c')
+    ask('use:total', zand(base3, zor(znot(g3), *panics3)), 'use_constant returns without panic from every consistent state', 'use')
+    ask('use:verdict', zand(base3, g3, znot(expected_verdict)), use_text, 'use')
+    pitems3 = [x for x in upost.f['items'].fields if x is not None]
+    records = zand(found0, has_ctx, znot(cyc3))
+    for i, (c0, c1) in enumerate(zip(items3, pitems3)):
+        grows = zand(records, zor(sy3.cid(c0) == cxid, (sy3.mask(c0) & sy3.bit(cxid)) != bv(0, W)))
+        ask('use:edge-recorded[%d]' % i,
+            zand(base3, g3, act3[i], znot(cyc3), znot(zand(upost.f['len'] == uvec.f['len'], sy3.cid(c1) == sy3.cid(c0),
+                                               sy3.mask(c1) == zite(grows, sy3.mask(c0) | reach3, sy3.mask(c0))))),
+            'using constant n inside the expression of constant c makes n and everything n contains part of c and of everything '
+            'that contains c; every other accepted or unresolved use leaves the containment sets alone (container slot %d)' % i, 'use')
+    ask('use:witness-recorded', zand(base3, g3, records, uvec.f['len'] == bv(KU, 64)), 'witness: a use that records an edge', 'witness')
+    ask('use:witness-cycle', zand(base3, g3, cyc3), 'witness: a use that closes a cycle', 'witness')
+    ask('use:model-bounds', zand(pre3, znot(in_model3)), 'the bit-set and Vec models suffice for every state within the bound', 'bounds')
+    flush()
+    S.functions += ['Analyzer::use_constant', 'Analyzer::use_containee']
 
     # ---------------------------------------------------------------- native validation of both encodings
     rng = random.Random(seed() * 131 + 7)
@@ -653,10 +824,19 @@ def run(S, tier):
         reqs.append(('step', cs, rng.choice(ids), rng.random() < 0.5, ct))
     for _ in range(n_samples // 2):
         reqs.append(('depths', random_state(rng, K)))
+    for _ in range(n_samples // 2):
+        cs = random_state(rng, KU)
+        ids = [c['id'] for c in cs]
+        l0 = [(rng.randint(1, 3), rng.choice(ids)) for _ in range(rng.randint(0, 2))]
+        layers = [l0] + ([[(rng.randint(1, 4), rng.randint(0, 7)) for _ in range(rng.randint(0, 1))]] if rng.random() < 0.6 else [])
+        reqs.append(('use', cs, rng.randint(1, 4), rng.choice(ids) if rng.random() < 0.7 else None, layers))
     lines = []
     for r in reqs:
         if r[0] == 'step':
             lines.append('step %d %d %s %s' % (r[2], 1 if r[3] else 0, vtlib.wire(r[4]), wire_state(r[1])))
+        elif r[0] == 'use':
+            lines.append('use %d %s %s %s' % (r[2], '-' if r[3] is None else r[3],
+                                              '/'.join(','.join('%d:%d' % e for e in l) or '-' for l in r[4]), wire_state(r[1])))
         else:
             lines.append('depths ' + wire_state(r[1]))
     got = native(S, lines)
@@ -664,6 +844,8 @@ def run(S, tier):
     s_step.add(*ex.assumptions)
     s_dep = z3.Solver()
     s_dep.add(*ex2.assumptions)
+    s_use = z3.Solver()
+    s_use.add(*ex3.assumptions)
     bad, used = [], 0
     for r, line, out in zip(reqs, lines, got):
         cons = []
@@ -690,6 +872,35 @@ def run(S, tier):
                 enc_v = 'poisoned'
             enc = '%s | %s' % (enc_v, wire_state(sy.model_state(m, post_vec)))
             if not z3.is_true(m.eval(g, model_completion=True)):
+                enc = 'PANIC'
+        elif r[0] == 'use':
+            bind_state(sy3, uvec, r[1], cons)
+            layers = r[4]
+            cons += [uname == bv(r[2], 8), has_ctx == z3.BoolVal(r[3] is not None), nl == bv(len(layers), 64),
+                     n0 == bv(len(layers[0]), 64)]
+            if r[3] is not None:
+                cons.append(cxid == bv(r[3], 32))
+            for idn, (nm, i_) in zip(lay0, layers[0]):
+                cons += [idn.fields[nidx] == bv(nm, 8), idn.fields[ridx] == bv(i_, 32)]
+            if len(layers) > 1:
+                cons.append(n1 == bv(len(layers[1]), 64))
+                for idn, (nm, i_) in zip(lay1, layers[1]):
+                    cons += [idn.fields[nidx] == bv(nm, 8), idn.fields[ridx] == bv(i_, 32)]
+            s_use.push()
+            s_use.add(*cons)
+            if s_use.check() != z3.sat:
+                s_use.pop()
+                continue
+            m = s_use.model()
+            s_use.pop()
+            if z3.is_true(m.eval(ok3, model_completion=True)):
+                enc_v = 'ok%d' % m.eval(out_id, model_completion=True).as_long()
+            elif z3.is_true(m.eval(is_error3, model_completion=True)):
+                enc_v = 'err%d' % error_code(S, edef.variant_by_discr(m.eval(err3.discr, model_completion=True).as_long())[1])
+            else:
+                enc_v = 'poisoned'
+            enc = '%s | %s' % (enc_v, wire_state(sy3.model_state(m, upost)))
+            if not z3.is_true(m.eval(g3, model_completion=True)):
                 enc = 'PANIC'
         else:
             bind_state(sy2, dvec, r[1], cons)
